@@ -7,7 +7,6 @@ package main
 import (
 	"fmt"
 	"math/big"
-	"strconv"
 	"strings"
 	"sync"
 
@@ -19,14 +18,6 @@ import (
 
 const c25OneDay = uint64(86400000000000)
 const c25Hour = uint64(3600000000000)
-
-func u64(s string) uint64 {
-	v, err := strconv.ParseUint(s, 10, 64)
-	if err != nil {
-		panic("harness: bad uint64 in op line: " + s)
-	}
-	return v
-}
 
 func joinBig(xs []*big.Int) string {
 	ss := make([]string, len(xs))
